@@ -208,7 +208,27 @@ func (r *Run) Violate(sig, descr string) {
 
 // Enough reports that the run has collected plenty of violations already: generators stop early
 // instead of spending the whole budget on an implementation that is evidently broken.
-func (r *Run) Enough() bool { return len(r.Viol) >= 200 }
+func (r *Run) Enough() bool {
+	n := 0
+	for _, v := range r.Viol {
+		if !knownSigs[v.Sig] {
+			n++
+		}
+	}
+	return n >= 200
+}
+
+// knownSigs: signatures of recorded known findings (VERIF_KNOWN_SIGS, set by the check); they do not
+// count towards Enough — a known finding must not cut the exploration of the unchanged tree short.
+var knownSigs = func() map[string]bool {
+	m := map[string]bool{}
+	for _, s := range strings.Split(os.Getenv("VERIF_KNOWN_SIGS"), ",") {
+		if s != "" {
+			m[s] = true
+		}
+	}
+	return m
+}()
 
 // Close flushes the streams and writes stats.json.
 func (r *Run) Close() {
